@@ -1,6 +1,7 @@
 #!/bin/sh
+ROOT="$(cd "$(dirname "$0")/.." && pwd)"
 # re-confirms every kept seeded change and re-runs the owning check against it (quick tier); prints one line per change
-for d in /verif/seeded/*/; do
+for d in "$ROOT"/seeded/*/; do
   n=$(basename "$d"); p=${n%-*}; w=${n#*-}
-  /verif/tools/seed_eval.py "$p" "$w" --tier "${1:-quick}" 2>&1 | head -1
+  "$ROOT"/tools/seed_eval.py "$p" "$w" --tier "${1:-quick}" 2>&1 | head -1
 done
